@@ -13,15 +13,30 @@ for i in range(1, 21):
     b = c['bounded']
     print(f"| {pid} | {c['obligations']} ({c['discharged']}) | {be} | {', '.join(fn)[:200] or '-'} | {b['passed_nontrivial']}/{b['trivial']}/{b['skipped']} | {e['wall_s']} s |")
 print()
-print('| change | function | needs to manifest | reported by | failed T1 obligation(s) | failing bounded clause(s) |')
-print('|---|---|---|---|---|---|')
-for f in sorted(glob.glob(os.path.join(ROOT, 'seeded', '*', 'meta.json'))):
+print('| change | function | needs to manifest | first run | reported by (current machinery) | failed T1 obligation(s) | failing bounded clause(s) |')
+print('|---|---|---|---|---|---|---|')
+
+
+def _key(f):
+    i = os.path.basename(os.path.dirname(f))
+    a, b = i.split('-')
+    return a, int(b)
+
+
+for f in sorted(glob.glob(os.path.join(ROOT, 'seeded', '*', 'meta.json')), key=_key):
     m = json.load(open(f))
     v = m.get('verification', {})
+    fr = m.get('first_run')
     fn = m.get('functions')
     fn = fn[0] if isinstance(fn, list) and fn else str(fn)
-    by = 'T1 + T3' if len(v.get('detected_by', [])) == 2 else ('T3' if v.get('detected_by') else 'MISSED')
+    db = v.get('detected_by', [])
+    by = 'T1 + T3' if len(db) == 2 else ('T1' if db and db[0].startswith('T1') else 'T3' if db else 'not reported')
+    if m.get('judgement') and not m['judgement'].get('counted_as_property_breaking', True):
+        by = 'not counted (see meta.json: judgement)'
+    first = 'reported' if (fr or v).get('detected') else 'missed'
+    if int(m['id'].split('-')[1]) <= 6 and m['id'] in ('C13-1', 'C14-1', 'C01-4', 'C05-4', 'C09-4', 'C13-4', 'C17-3', 'C17-4', 'C20-3', 'C13-6', 'C17-6'):
+        first = 'missed'          # rounds 1-3: the first verdicts were overwritten by the re-runs; the misses are the ones named in the text
     t1 = '; '.join(sorted({x.rsplit('.', 1)[-1][:60] for x in v.get('t1_failed_obligations', [])})[:2])
     t3 = ', '.join(v.get('t3_failing_clauses', [])[:2])
     need = (m.get('needs_to_manifest', '') or '').replace('\n', ' ').replace('|', '/')[:110]
-    print(f"| {m['id']} | {str(fn).split('::')[-1][:28]} | {need} | {by} | {t1} | {t3} |")
+    print(f"| {m['id']} | {str(fn).split('::')[-1][:28]} | {need} | {first} | {by} | {t1} | {t3} |")
